@@ -112,6 +112,8 @@ def secret_for(tname, mat):
 def refs(op):
     """Offsets of the objects an operation addresses."""
     k = op[0]
+    if k == 'Foreign':
+        return refs(op[1])
     if k in ('Create', 'CreateKeyPair', 'Register'):
         return []
     if k == 'DeriveKey':
@@ -201,6 +203,8 @@ class Runner:
     def build(self, op, via_placeholder=False):
         kind = op[0]
         u = self.uid
+        if kind == 'Foreign':       # the inner operation, sent by another identity (see run_single)
+            return self.build(tuple(op[1]))
         if kind == 'Create':
             return kdrv.create(ALG.AES, 128, mask_list(op[1]))
         if kind == 'CreateKeyPair':
@@ -370,7 +374,9 @@ class Runner:
 
     def run_single(self, base, op, full=False):
         self.crypto = None
-        r = self.eng.request([self.build(op)], version=self.version)
+        if op[0] == 'Foreign' and op[1][0] not in ('Activate', 'Revoke', 'Destroy'):
+            raise ValueError('Foreign wraps Activate / Revoke / Destroy only: %r' % (op,))
+        r = self.eng.request([self.build(op)], version=self.version, user=('bob' if op[0] == 'Foreign' else 'alice'))
         if r['error'] is not None:
             raise RuntimeError('request-level error for %r: %r' % (op, r['error']))
         item = r['items'][0]
@@ -448,6 +454,8 @@ def oracle_step(base, st):
     """Violations of the property statement visible in one observed step.  -> [(signature, what)]"""
     out = []
     op = st['op']
+    if op[0] == 'Foreign':      # the property is about the operation, whoever sends it
+        op = tuple(op[1])
     kind = op[0]
     okay = st['status'] == 'SUCCESS'
     before, after = st['before'], st['after']
@@ -525,6 +533,8 @@ def coq_op(op, base):
     def u(k):
         return cp.z(0 if k < 0 else base + k)
     k = op[0]
+    if k == 'Foreign':
+        return '(ForeignUse %s)' % u(refs(op)[0])
     if k == 'Create':
         return '(Create %s)' % cp.z(op[1])
     if k == 'CreateKeyPair':
@@ -654,7 +664,7 @@ def grid():
                 # lifecycle operations after every route
                 for tst in ([('Activate', 0), ('Destroy', 0)] + [('Revoke', 0, c) for c in CODES]
                             + [('Revoke', 0, c, (d, 'm')) for c in (KC, CA, CESS) for d in (0, 4000000000)]):
-                    out.append(('grid', [('Register', t, FULL)] + route + [tst, ('Activate', 0), ('Destroy', 0)]))
+                    out.append(('grid', [('Register', t, FULL)] + route + [('Foreign', tst), tst, ('Foreign', ('Destroy', 0)), ('Activate', 0), ('Destroy', 0)]))
     return out
 
 
@@ -699,7 +709,17 @@ def random_history(rng, length):
     def pick_type(names):
         c = [i for i, t in enumerate(objs) if t in names]
         return rng.choice(c) if c and rng.random() < 0.8 else pick()
+    def foreign_some(start):
+        """Now and then the operation just generated (outside a batch) is sent by an identity that owns nothing."""
+        if len(ops) == start + 1 and rng.random() < 0.2:
+            o = ops[-1]
+            if o[0] in ('Activate', 'Revoke', 'Destroy'):
+                ops[-1] = ('Foreign', o)
+    mark = None
     while len(ops) < length:
+        if mark is not None:
+            foreign_some(mark)
+        mark = len(ops)
         r = rng.random()
         if objs and rng.random() < 0.05:
             ops.append(rng.choice([('Restart',), ('Version', rng.choice(VERSIONS)), ('Clock', rng.choice([1, 3600, 86400 * 400, 86400 * 4000]))]))
@@ -980,7 +1000,7 @@ def run(ctx):
                 a = s['after'].get(x)
                 if b is not None and a is not None and a[1] != b[1]:
                     ctx.count('transition.%s->%s' % (b[1], a[1]))
-            if k in ('Encrypt', 'Decrypt', 'Sign', 'SignatureVerify', 'MAC') and s['op'][1] >= 0:
+            if k in ('Encrypt', 'Decrypt', 'Sign', 'SignatureVerify', 'MAC') and isinstance(s['op'][1], int) and s['op'][1] >= 0:
                 b = s['before'].get(res['base'] + s['op'][1])
                 if b is not None:
                     ctx.count('use.%s.%s.%s.%s' % (k, b[0], b[1], 'ok' if s['status'] == 'SUCCESS' else 'no'))
